@@ -83,6 +83,25 @@ KEYS = [(q, dns.rdatatype.A, dns.rdataclass.IN) for q in QNAMES]
 KEYS[4] = ()
 KEYS[5] = 0
 KID = {k: i for i, k in enumerate(KEYS)}
+CALLS = [0]  # operation counter: selects the call form (positional / keyword) and the key alias
+ANSWERS = {}  # (v, exp) -> Answer: a repeated put (same or another key) hands in the very same object
+
+
+def key_obj(k: int, form: int = 0):
+    """the key object for key number k.  `form` picks an equal-but-different object: the name in another case and
+    the type/class as plain ints for tuple keys, `False` for the key 0, a fresh `tuple()` for `()`"""
+    if k >= len(KEYS):
+        key = (dns.name.from_text(f"k{k}.example."), dns.rdatatype.A, dns.rdataclass.IN)
+        KID.setdefault(key, k)
+        return key
+    key = KEYS[k]
+    if form % 2 == 0:
+        return key
+    if k == 5:
+        return False  # False == 0 and hash(False) == hash(0)
+    if k == 4:
+        return tuple()
+    return (dns.name.from_text(key[0].to_text().upper()), 1, 1)
 _MSG = {}
 ANSWER_PROBLEMS = []  # (signature, what): Answer.expiration differs from creation time + minimum TTL
 SNAPSHOTS = []  # (statistics snapshot object, hits, misses at capture)
@@ -91,7 +110,7 @@ SNAPSHOTS = []  # (statistics snapshot object, hits, misses at capture)
 def _message(k, kind):
     """one response per (key, kind): 0 plain A, 1 CNAME chain to an A, 2 negative (NODATA with SOA in authority)"""
     if (k, kind) not in _MSG:
-        qn = QNAMES[k]
+        qn = QNAMES[k % len(QNAMES)]
         q = dns.message.make_query(qn, "A")
         r = dns.message.make_response(q)
         IN, A = dns.rdataclass.IN, dns.rdatatype.A
@@ -118,6 +137,8 @@ def make_answer(k: int, v: int, exp: int):
     """a real dns.resolver.Answer whose expiration (= time.time() + minimum TTL at creation) must be `exp`.
     The answer's identity `v` selects its shape: plain rrset, CNAME chain (the minimum TTL is on either link),
     negative answer (rrset None, so the Answer object is *falsy*; TTL = min(SOA ttl, SOA minimum))."""
+    if (v, exp) in ANSWERS:
+        return ANSWERS[(v, exp)]  # the same object again (re-put of an object the cache may still hold)
     kind = {2: 1, 5: 1, 3: 2, 7: 2}.get(v % 8, 0)
     qn, r, parts = _message(k, kind)
     ttl = min(exp, 7)
@@ -142,6 +163,7 @@ def make_answer(k: int, v: int, exp: int):
     finally:
         CLOCK.t = saved
     a.vid = v
+    ANSWERS[(v, exp)] = a
     if a.expiration != float(exp):
         ANSWER_PROBLEMS.append(("C17/Answer.__init__/expiration",
                                 f"Answer of shape {('plain', 'CNAME chain', 'negative')[kind]} created at t={exp - ttl} with minimum TTL {ttl}: "
@@ -172,22 +194,44 @@ def safe_apply(cache, tok: str):
 
 
 def apply_op(cache, tok: str):
-    """run one operation on the real cache; returns the canonical result token"""
+    """run one operation on the real cache; returns the canonical result token.  The call form (positional /
+    keyword arguments, explicit `None`) and the key object (an equal alias) rotate with the operation counter."""
     c, a = parse_tok(tok)
+    CALLS[0] += 1
+    n = CALLS[0]
+    if c in "gpfk":
+        key = key_obj(a[0], n // 2)
     if c == "g":
-        r = cache.get(KEYS[a[0]])
+        r = cache.get(key) if n % 2 else cache.get(key=key)
         return "N" if r is None else f"V{r.vid}"
     if c == "p":
-        cache.put(KEYS[a[0]], make_answer(*a))
+        value = make_answer(*a)
+        if n % 3 == 0:
+            cache.put(key, value)
+        elif n % 3 == 1:
+            cache.put(key=key, value=value)
+        else:
+            cache.put(value=value, key=key)
         return "U"
     if c == "f":
-        cache.flush(KEYS[a[0]])
+        if n % 2:
+            cache.flush(key)
+        else:
+            cache.flush(key=key)
         return "U"
     if c == "F":
-        cache.flush()
+        if n % 3 == 0:
+            cache.flush()
+        elif n % 3 == 1:
+            cache.flush(None)
+        else:
+            cache.flush(key=None)
         return "U"
     if c == "s":
-        cache.set_max_size(a[0])
+        if n % 2:
+            cache.set_max_size(a[0])
+        else:
+            cache.set_max_size(max_size=a[0])
         return "U"
     if c == "a":
         CLOCK.t += a[0]
@@ -197,7 +241,7 @@ def apply_op(cache, tok: str):
     if c == "m":
         return f"#{cache.misses()}"
     if c == "k":
-        return f"#{cache.get_hits_for_key(KEYS[a[0]])}"
+        return f"#{cache.get_hits_for_key(key) if n % 2 else cache.get_hits_for_key(key=key)}"
     if c == "r":
         cache.reset_statistics()
         return "U"
@@ -496,6 +540,7 @@ def eval_seq(ctx: Ctx, case: dict):
     steps = []
     del ANSWER_PROBLEMS[:]
     del SNAPSHOTS[:]
+    ANSWERS.clear()
     with clock_installed():
         cache, init = new_cache(kind, params)
         params["init"] = init
@@ -802,6 +847,13 @@ class Gen:
     def op(self, allow_setmax=True, allow_adv=True):
         r = self.rng
         x = r.below(100)
+        if x < 30 and getattr(self, "last_puts", None) and r.chance(1, 8):
+            # the very same Answer object again, under the same or another key
+            _, v, exp = self.last_puts[r.below(len(self.last_puts))]
+            k = r.below(self.nkeys)
+            if k not in self.put_keys:
+                self.put_keys.append(k)
+            return f"p{k}:{v}:{exp}"
         if x < 30:
             k = r.below(self.nkeys)
             self.v += 1
@@ -809,6 +861,7 @@ class Gen:
             exp = max(0, self.now - age + ttl)
             if k not in self.put_keys:
                 self.put_keys.append(k)
+            self.last_puts = (getattr(self, "last_puts", []) + [(k, self.v, exp)])[-4:]
             return f"p{k}:{self.v}:{exp}"
         if x < 62:
             return f"g{self.key()}"
@@ -834,7 +887,7 @@ class Gen:
 
 
 def gen_seq(rng, kind):
-    t0 = rng.choice([0, 5, 1000])
+    t0 = rng.choice([0, 5, 1000, 1000, 2 ** 31 - 2, 2 ** 32 - 3])
     n = rng.choice([1, 2, 3, 5, 8, 12, 20, 30, 50, 80])
     if kind == "lru":
         case = {"kind": "lru", "max": rng.choice(MAX_POOL), "t0": t0}
@@ -914,6 +967,14 @@ BOUNDARY = [
 ]
 
 
+def big_case():
+    """hundreds of entries: the ring, the make-room loop and a deep shrink at a size no small case reaches"""
+    ops = [f"p{k}:{k + 1}:{5000 + k % 7}" for k in range(400)]
+    ops += [f"g{k}" for k in (0, 143, 144, 399, 200)] + ["s100", "g299", "g300", "g399", "g200", "h", "m"]
+    ops += [f"p{k}:{1000 + k}:6000" for k in range(400, 520)] + ["g399", "g200", "g420", "a4100", "g519", "F", "g519"]
+    return {"kind": "lru", "max": 256, "t0": 1000, "ops": ops}
+
+
 def run(ctx: Ctx):
     ctx.extra["set_max_size_evicts"] = detect_intended()  # informational; the model follows the repaired code
     for p in sorted(glob.glob(os.path.join(VERIF, "corpus", "C17", "*.json"))):
@@ -921,7 +982,7 @@ def run(ctx: Ctx):
         ctx.case(("corpus", os.path.basename(p)), sample=None)
         eval_case(ctx, c)
         ctx.count("corpus")
-    for c in BOUNDARY:
+    for c in BOUNDARY + [big_case()]:
         ctx.case(case_key(c))
         eval_case(ctx, c)
         ctx.count("boundary")
